@@ -104,7 +104,7 @@ def pagerank[S](
             # Sum contributions from nodes linking to v
             rank_sum = sum(scores[u] / outgoing_count[u] for u in incoming[v])
             new_scores[v] = base_score + damping * rank_sum + dangling_contrib
-            max_diff = max(max_diff, abs(new_scores[v] - scores[v]))
+            max_diff += abs(new_scores[v] - scores[v])  # total change, the criterion of the Rust kernel
 
         scores = new_scores
 
